@@ -28,15 +28,17 @@ class C03(T.SeqCases, S.SchedCheck):
     profiles = ("time", "plain")
     trusted_base = S.SchedCheck.trusted_base + [
         "oracle harness/areas/schedt.py c03_analyse: tick table start+tock+...+tock and per-doer due sequence recomputed with Python floats from the scripts"]
-    assumptions = ["programs are op-free and fault-free (timing only); yielded tocks are None, 0 or positive",
+    assumptions = ["the due-tyme clauses are judged on op-free fault-free programs (yielded tocks None, 0 or positive); the order / once-per-cycle / tyme clauses on every program incl. extend/remove ops",
                    "IEEE-754 doubles satisfy LawfulTyme (a+0=a, <= reflexive/transitive/total, 0<=t -> a<=a+t, a<=b -> a+t<=b+t) on the finite non-NaN values used; no Lean instance is declared",
                    "DoDoers with tock > 0 and their members are outside the quantifier of C03: only order/once-per-cycle/tyme clauses are checked for them"]
     rule = ("op-free fault-free programs: own profiles flat/nested/hetero/f46/g04 (scripts positive* asap*, asap-then-positive, mixed; None and 0.0; tocks incl. 0.1 0.3 1/3 0.7; "
-            "starts incl. 0.3 100.1 7/3; limits incl. non-multiples and negative; random regroupings under tock-0 DoDoers incl. empty and nested) + profiles time/plain of the family; 6% degenerate programs (no doers, all done at enter, DoDoers without kids: the deque is empty when the first cycle runs); ~40% of the cases reach the same program through a history or another entry point (schedt.run_var: seq, same Doist twice, faulted first run, pre-wound, ints, iterator, doers at init, __call__, hand-driven enter/recur/exit, DoDoer opts); formerly: 30% of the cases are SECOND runs: the same doer objects were first run under another Doist (other start tyme, cut by a limit) and are then run under a fresh one. "
+            "starts incl. 0.3 100.1 7/3; limits incl. non-multiples and negative; random regroupings under tock-0 DoDoers incl. empty and nested) + profiles time/plain of the family; 18% op-carrying programs of the family (profiles ops/mixed: extend/remove by running doers) judged on the once-per-cycle and enter-order clauses; waiter doers (read a sibling's .done) in 40% of the flat/nested/g04 programs; 6% degenerate programs (no doers, all done at enter, DoDoers without kids: the deque is empty when the first cycle runs); ~40% of the cases reach the same program through a history or another entry point (schedt.run_var: seq, same Doist twice, faulted first run, pre-wound, ints, iterator, doers at init, __call__, hand-driven enter/recur/exit, DoDoer opts); formerly: 30% of the cases are SECOND runs: the same doer objects were first run under another Doist (other start tyme, cut by a limit) and are then run under a fresh one. "
             "non-trivial = >= 10 recur events and some doer yields a positive tock; distinct by request line")
 
     def corpus(self):
-        return list(T.DEGENERATE_CORPUS) + list(T.TIMING_CORPUS) + self.seq_corpus(T.TIMING_CORPUS + T.DEGENERATE_CORPUS[:3])
+        # S.CORPUS[3] = pre-finding F03 (extend in mid cycle): exhibits known finding C03-K2 on every run
+        return list(T.DEGENERATE_CORPUS) + list(T.TIMING_CORPUS) + list(T.WAITER_CORPUS) + [S.CORPUS[3], S.CORPUS[1], S.CORPUS[9]] \
+            + self.seq_corpus(T.TIMING_CORPUS + T.DEGENERATE_CORPUS[:3] + T.WAITER_CORPUS)
 
     def request(self, case):
         return S.request(self.base(case))
@@ -63,17 +65,26 @@ class C03(T.SeqCases, S.SchedCheck):
                 k = rng.random()
                 if k < 0.06:
                     yield T.gen_degenerate(rng)
-                elif k < 0.2:
+                elif k < 0.16:
                     yield S.gen_case(rng, rng.choice(self.profiles))
+                elif k < 0.34:
+                    # op-carrying programs of the family (extend / remove issued by running doers, also on non-tail live doers):
+                    # the clauses "at most once per cycle" and "in enter order" are judged on them too
+                    c = S.gen_case(rng, rng.choice(["ops", "ops", "mixed"]))
+                    if len(c) == 6:
+                        yield c
+                    else:
+                        yield S.gen_case(rng, "time")
                 else:
                     yield T.gen_timed(rng, rng.choice(["flat", "flat", "nested", "nested", "hetero", "f46", "g04", "g04"]))
         return self.with_seq(rng, plain())
 
     def run_impl(self, case):
         T.settle_heap()
-        if case[0] in ("seq", "var"):
-            return T.TObs(T.run_var(case[2], self.variant(case)))
-        return T.TObs(S.run_program(case))
+        with T.waiters():
+            if case[0] in ("seq", "var"):
+                return T.TObs(T.run_var(case[2], self.variant(case)))
+            return T.TObs(S.run_program(case))
 
     def nontrivial(self, case, obs):
         case = self.base(case)
@@ -99,15 +110,30 @@ class C03(T.SeqCases, S.SchedCheck):
         return T.c03_analyse(self.base(case), obs.d)[0]
 
     def known(self, case, obs, clauses):
+        case = self.base(case)
+        # C03-K2 (pre-finding F03, = C02-K1 seen from C03): a doer extended in mid cycle is queued BEFORE its extender, so later cycles
+        # run it ahead of doers that were entered earlier.  Only the order clause, and in every inverted pair the doer that runs too
+        # early is a pool doer (entered by extend()) or lives inside one.
+        if clauses == ["cycle-order-differs-from-enter-order"]:
+            cl, why = T.c03_analyse(case, obs.d)
+            spec, par, pools, kids = S.spec_index(case)
+            desc = S.descendants(case)
+            early = {i for l in pools.values() for i in l}
+            for g in list(early):
+                early |= desc.get(g, set())
+            inv = why.get("inversions", [])
+            if inv and all(a in early for a, b in inv):
+                return "C03-K2"
+            return None
         # C03-K1 (pre-finding F46): inside a tock-0 DoDoer the due tyme after an asap yield is the CURRENT tyme, so a positive tock that
         # follows is counted from one scheduler tock too early.  Only the cumulative-due clause may be violated, every doer it names must
         # satisfy the trigger, and the whole run must be exactly what that rule predicts.
         if clauses != ["resume-not-in-first-cycle-at-or-after-due"]:
             return None
-        case = self.base(case)
         cl, why = T.c03_analyse(case, obs.d)
         hit = set(T.g04_break_reached(case, obs.d, None, any_tock0_parent=True))
-        if not why or not set(why) <= hit:
+        named = {k for k in why if k != "inversions"}
+        if not named or not named <= hit:
             return None
         if T.c03_analyse(case, obs.d, nested_asap_rule="now")[0]:
             return None
